@@ -430,6 +430,7 @@ func TestC02(t *testing.T) {
 	em := NewEmitter(t, "C02")
 	defer em.Close()
 	names, raws, replayOnly := corpusInputs(t, "C02")
+	earlier := "" // when set: what the same input evaluated to earlier in this process (added to the evaluations compared)
 	run2 := func(src string, in JRound, w *roundWorld, r *Rng) JRoundImpl {
 		// node A is the caller's fresh node; here: evaluate on two more instances, one fresh and one "dirty"
 		var out c02Impl
@@ -452,6 +453,9 @@ func TestC02(t *testing.T) {
 					impl, e1, r1, x1 := evalRound(a, in, 4)
 					_, e2, r2, x2 := evalRound(b, in, 4)
 					out = c02Impl{JRoundImpl: impl, Evals: append(e1, e2...), Reports: append(r1, r2...), RepErr: append(x1, x2...)}
+					if earlier != "" {
+						out.Evals = append(out.Evals, earlier)
+					}
 				})
 			})
 		})
@@ -476,11 +480,18 @@ func TestC02(t *testing.T) {
 	}
 	r := NewRng(seed() + 2000)
 	n := tierN(150, 3000)
-	var again []JRound // the first rounds, evaluated once more after every other round of the process
+	// the first rounds are evaluated once more after every other round of the process: same input, same bytes
+	type againT struct {
+		in    JRound
+		first string
+	}
+	var again []againT
 	defer func() {
-		for _, in := range again {
-			run2("gen-again", in, nil, nil)
+		for _, a := range again {
+			earlier = a.first
+			run2("gen-again", a.in, nil, nil)
 		}
+		earlier = ""
 	}()
 	for c := 0; c < n; c++ {
 		w := newRoundWorld(r, roundOpts{maxPool: 25, byzantine: true, proposalsMax: 10})
@@ -497,10 +508,10 @@ func TestC02(t *testing.T) {
 				oracles[i] = g.oracle
 			}
 			in := buildRound(w.n, w.f, w.digest, seq, prev, rawsK, oracles)
-			if len(again) < 12 {
-				again = append(again, in)
-			}
 			impl := run2("gen", in, w, r)
+			if len(again) < 12 {
+				again = append(again, againT{in, impl.Bytes + "|" + impl.Err})
+			}
 			if impl.Outcome != nil {
 				o := fromJOutcome(*impl.Outcome)
 				prev = &o
